@@ -1029,3 +1029,5 @@ func vDrawBase(rt *rapid.T, db *vDB, strict bool) (common.Hash, *refstate.State,
 	}
 	return root, m, facts
 }
+
+func vU256(b *big.Int) *uint256.Int { return uint256.MustFromBig(b) }
